@@ -897,11 +897,11 @@ def part_b(tier: str) -> list[dict]:
         for topo in ('flat1', 'flat2', 'flat3'):
             for sh in ('map2', 'map3', 'next3', 'nested', 'nested_map', 'two_rev', 'cancel_map', 'cancel_after_next',
                        'cancel_nested'):
-                obs.append(ob('B/msg/%s/%s/K2' % (topo, sh), topo, [sh], 'counters', 2, 3000, maxrank=3))
+                obs.append(ob('B/msg/%s/%s/K2' % (topo, sh), topo, [sh], 'counters', 2, 600, maxrank=3))
         for topo in ('mgr2x1', 'mgr1x2', 'mgr2x2'):
             for sh in ('map2', 'map3', 'nested'):
-                obs.append(ob('B/msg/%s/%s/K2' % (topo, sh), topo, [sh], 'counters', 2, 3000))
-        obs.append(ob('B/msg/flat2/two-clients/K2', 'flat2', ['map3', 'map2'], 'counters', 2, 3000))
+                obs.append(ob('B/msg/%s/%s/K2' % (topo, sh), topo, [sh], 'counters', 2, 600))
+        obs.append(ob('B/msg/flat2/two-clients/K2', 'flat2', ['map3', 'map2'], 'counters', 2, 600))
     return obs
 
 
